@@ -78,6 +78,18 @@ def run(res, tier, seed, gen_errs):
         res.nontrivial.add(l)
     res.sample({'script_head': lines[:6], 'impl_head': couts[:6]})
     bad = direct_oracle(lines, couts)
+    # long definitional walk on the implementation only (the first state that deviates becomes the replay)
+    nverify = 4000000 if tier == 'quick' else 60000000
+    vlines = ['rand srand 1', 'rand verify %d' % nverify, 'rand srand %d' % rng.randrange(1, P), 'rand verify %d' % (nverify // 4)]
+    rc2, vouts, verr = common.run_harness(exe, vlines)
+    res.cov['definitional_walk_steps'] = nverify + nverify // 4
+    for vl, vo in zip(vlines, vouts):
+        if vl.startswith('rand verify') and 'bad_at=0 ' not in vo:
+            d = dict(x.split('=') for x in vo.split()[1:])
+            bad.append(('rand srand %s' % d['from'], vo, 'state: from state %s the generator gives state %s / output %s, the definition gives state %s' %
+                        (d['from'], d['got_state'], d['got_out'], d['exp_state'])))
+            lines = lines + ['rand srand %s' % d['from'], 'rand next 12750000']
+            break
     mouts = None
     try:
         mouts = common.run_model(lines)
@@ -101,7 +113,8 @@ def run(res, tier, seed, gen_errs):
     if bad:
         l, o, why = bad[0]
         res.violation('c19:oracle:' + why.split(':')[0], 'of_rfc5170 on the real code: %s; line %r gave %r' % (why, l, o),
-                      replay={'script': lines[:lines.index(l) + 1] if l in lines else [l], 'impl_output': o, 'expected': why})
+                      replay={'script': (lines[:lines.index(l) + 1] if l in lines else [l]) + (['rand next 12750000'] if 'srand' in l else []),
+                              'impl_output': o, 'expected': why})
     elif not ok or gen_errs.get('Rand.lean'):
         # a proof obligation over the translated code (or the translation itself) broke but no failing input was found
         res.violation('c19:proof', 'theorems of %s no longer check against the current of_rand.c: %s' %
